@@ -1328,6 +1328,33 @@ THEOREM_HYPOTHESES = {
 }
 
 
+def audit_witness(check, module, namespace, theorems):
+    """build a Witness module and audit the axioms of its theorems (one obligation each)"""
+    import subprocess
+    ok, out = common.lake_build([module])
+    if not ok:
+        check.oblige('lake build ' + module, False, out[-2000:])
+        return
+    rel = os.path.join('Audit', module.split('.')[-2] + module.split('.')[-1] + '.lean')
+    common.regen(rel, 'import %s\n' % module + ''.join('#print axioms %s.%s\n' % (namespace, t) for t in theorems))
+    with common.LakeLock():
+        p = subprocess.run(['lake', 'env', 'lean', rel], cwd=common.LEAN, env=common.lake_env(), stdout=subprocess.PIPE,
+                           stderr=subprocess.STDOUT, text=True, timeout=900)
+    import re
+    found = {}
+    for m in re.finditer(r"'([^']+)' depends on axioms: \[([^\]]*)\]", p.stdout):
+        found[m.group(1).split('.')[-1]] = [a.strip() for a in m.group(2).replace('\n', ' ').split(',') if a.strip()]
+    for m in re.finditer(r"'([^']+)' does not depend on any axioms", p.stdout):
+        found[m.group(1).split('.')[-1]] = []
+    for t in theorems:
+        bad = None if t in found else 'no axiom report'
+        if t in found and [a for a in found[t] if a not in common.ALLOWED_AXIOMS]:
+            bad = 'axioms %s' % found[t]
+        check.oblige('witness theorem %s.%s' % (module.split('.')[-1] + ' ' + module.split('.')[-2], t), bad is None, bad or '')
+    hits = common.grep_forbidden(module)
+    check.oblige('forbidden-construct audit of ' + module, not hits, '; '.join(hits))
+
+
 def analyse(prog, hints):
     src, bp, rp = render(prog, hints)
     compile(src, '<plain>', 'exec')
@@ -1486,6 +1513,9 @@ def run_property(check, prop):
     for k in check.known:
         k['_matcher'] = lambda what, replay, k=k: known_matcher(k, what, replay)
     check.prove(extra_targets=('drv_den',))
+    if prop == 'C02':
+        audit_witness(check, 'SuppModel.Witness.C02', 'SuppModel.Witness.C02',
+                      ['late_in_fragment', 'late_is_late', 'late_reach', 'late_not_listed', 'C02_sound_needs_late'])
     load_supp()
     n_prog = {'C01': (300, 2500), 'C02': (300, 2500), 'C03': (300, 2500)}[prop][0 if quick else 1]
     limit = 256 if quick else 4096
@@ -1506,7 +1536,9 @@ def run_property(check, prop):
     lint_dis = 0
     multi = 0
     constructs = {}
-    frag_hits = {'inC02': 0, 'inC03': 0, 'inSem': 0}
+    frag_hits = {'inC02': 0, 'inC03': 0, 'inSem': 0, 'runWf': 0}
+    no_late = 0
+    late_reads = 0
     total_runs = 0
     exhaustive = 0
     n_assist = 0
@@ -1519,6 +1551,8 @@ def run_property(check, prop):
             constructs[k] = constructs.get(k, 0) + v
         for k in frag_hits:
             frag_hits[k] += 1 if rep.get(k) else 0
+        late_reads += rep.get('lateReads', 0)
+        no_late += 1 if rep.get('lateReads', 0) == 0 else 0
         try:
             src, bp, rp, sa = analyse(prog, hints)
         except SyntaxError as e:
@@ -1571,7 +1605,7 @@ def run_property(check, prop):
                            {'program': small, 'hints': _hints_json(hints), 'source': render(small, hints)[0], 'read': r,
                             'decisions': [1 if b else 0 for b in decisions], 'level': level})
             # Sem = CPython: the model's executable semantics on the same decisions (single-scope programs)
-            if rep.get('inSem') and level == 'module':
+            if rep.get('inSem') and rep.get('runWf') and level == 'module':
                 isrc2 = render(prog, hints, True, False)[0]
                 code = compile(isrc2, '<den>', 'exec')
                 ds = []
@@ -1616,7 +1650,8 @@ def run_property(check, prop):
                          'alternatives in supp\'s answer' % limit)
     check.extra.update({
         'programs': len(progs), 'reads_compared': n_reads, 'disagreements': dis, 'constructs_generated': constructs,
-        'fragment_predicates_true_of': frag_hits, 'cpython_runs': total_runs, 'programs_run_by_cpython': oracle_programs,
+        'fragment_predicates_true_of': frag_hits, 'programs_without_late_read (lateRead = false for every read)': no_late,
+        'late_reads_total': late_reads, 'cpython_runs': total_runs, 'programs_run_by_cpython': oracle_programs,
         'programs_exhaustively_explored': exhaustive, 'assist_or_location_queries': n_assist,
         'sem_vs_cpython_runs_compared': sem_cmp, 'sem_vs_cpython_disagreements': sem_bad,
         'c03_reads_outside_domain_skipped': skipped_c03,
@@ -1628,7 +1663,8 @@ def run_property(check, prop):
         check.sample({'level': level, 'source': render(prog, hints)[0][:600]})
     check.assumptions += [
         'Python evaluation order of the rendered statements is the event order of Stmt (validated by the Sem = CPython stream)',
-        'the executable `run` is validated against CPython only (not proved sound w.r.t. Exec)',
+        'the executable `run` is proved sound w.r.t. Exec (run_sound, runProg_sound in Props/C02.lean) for runWf programs; '
+        'the Sem = CPython stream compares exactly the inSem && runWf programs',
         'a failing read is recorded and execution goes on (as if wrapped in try/except NameError); inside comprehensions '
         'it aborts the comprehension as in real Python (C01/C02 runs)',
         'function bodies are called by the harness right after their definition and once more at the end of the module',
